@@ -645,6 +645,7 @@ func (fr *Frame) unop(st *State, in *ssa.UnOp) bool {
 		x.T = in.X.Type()
 		v.T = et
 		r.assume(st, sImp(sAnd(sNot(sSelect(r.get(st, "g|$closed"), x.S)), r.notVolChan(x.S)), okv.S))
+		r.set(st, "g|$recvd", sStore(r.get(st, "g|$recvd"), x.S, "true"))
 		fr.curChanKey = chanKey(in.X, in.X.Type())
 		fr.chanRecvAssume(st, x, v, okv)
 		if in.CommaOk {
@@ -1148,6 +1149,7 @@ func (fr *Frame) selectOp(st *State, in *ssa.Select) {
 	okv := r.facts.Fresh("selok", "Bool")
 	res := Val{K: KTuple, Fs: []Val{intVal(idx), boolVal(okv)}}
 	names := map[string]Val{"index": intVal(idx), "recvok": boolVal(okv)}
+	recvdAfter := r.get(st, "g|$recvd")
 	for i, s := range in.States {
 		ch := fr.val(st, s.Chan)
 		names[fmt.Sprintf("chan%d", i)] = ch
@@ -1166,6 +1168,7 @@ func (fr *Frame) selectOp(st *State, in *ssa.Select) {
 			r.assume(sub, sImp(sAnd(sNot(sSelect(r.get(st, "g|$closed"), ch.S)), r.notVolChan(ch.S)), okv))
 			fr.curChanKey = chanKey(s.Chan, s.Chan.Type())
 			fr.chanRecvAssume(sub, ch, v, boolVal(okv))
+			recvdAfter = sIte(sEq(idx, fmt.Sprint(i)), sStore(r.get(st, "g|$recvd"), ch.S, "true"), recvdAfter)
 		} else {
 			sv := fr.val(st, s.Send)
 			sv.T = s.Send.Type()
@@ -1181,6 +1184,7 @@ func (fr *Frame) selectOp(st *State, in *ssa.Select) {
 	}
 	fr.atAnchors(st, in, false, names)
 	fr.selectDiscipline(st, in, names)
+	r.set(st, "g|$recvd", recvdAfter)
 	fr.set(in, res)
 	r.names[fr.inst+":"+fr.anchorName(in, "select")+".index"] = idx
 	fr.atAnchors(st, in, true, names)
